@@ -33,6 +33,14 @@ pub const SUITES: &[(&str, fn(&Sx) -> Sx)] = &[("thr.repeat", repeat), ("thr.ids
 
 /// one execution of a "run" case on a state built in the calling thread; None = undecodable
 fn exec_once(c: &[Sx]) -> Option<Sx> {
+    let mut is = InstructionSet::new();
+    is.load();
+    exec_once_with(c, &mut is)
+}
+
+/// the same with an InstructionSet the caller keeps across executions (a host that evaluates many programs loads its
+/// instruction set once: whatever an instruction closure remembers travels from one run to the next)
+fn exec_once_with(c: &[Sx], is: &mut InstructionSet) -> Option<Sx> {
     let mode = c[3].as_z()?;
     let arg = c[4].as_z()?;
     let next_node = c[5].as_l().and_then(|w| w.get(0)).and_then(|z| z.as_z())?;
@@ -40,17 +48,15 @@ fn exec_once(c: &[Sx]) -> Option<Sx> {
     if next_node != 1 { return None; }
     let mut st = sx_to_state_at(&c[2], 1).ok()?;
     let r = panic::catch_unwind(panic::AssertUnwindSafe(|| {
-        let mut is = InstructionSet::new();
-        is.load();
         if mode == 0 {
             let icache = is.cache();
             let mut fin = false;
             for _ in 0..arg {
-                if PushInterpreter::step(&mut st, &mut is, &icache) { fin = true; break; }
+                if PushInterpreter::step(&mut st, is, &icache) { fin = true; break; }
             }
             Sx::L(vec![Sx::b(fin), state_to_sx(&st)])
         } else {
-            let o = match PushInterpreter::run(&mut st, &mut is) {
+            let o = match PushInterpreter::run(&mut st, is) {
                 PushInterpreterState::NoErrors => 0,
                 PushInterpreterState::StepLimitExceeded => 1,
                 PushInterpreterState::TimeLimitExceeded => 2,
@@ -91,19 +97,21 @@ fn repeat(c: &Sx) -> Sx {
         let others = c[7].as_l()?;
         let base: Vec<Sx> = c[..6].to_vec();
         let mut results: Vec<Sx> = Vec::new();
-        // (a) n times in a row
-        for _ in 0..n { results.push(exec_once(&base)?); }
+        // (a) n times in a row, (b) after m unrelated runs: all with ONE instruction set, loaded once
+        let mut shared_is = InstructionSet::new();
+        shared_is.load();
+        for _ in 0..n { results.push(exec_once_with(&base, &mut shared_is)?); }
         // (b) after m unrelated runs
         if m > 0 {
             for j in 0..m {
                 if !others.is_empty() {
                     let o = &others[j % others.len()];
                     let oc = vec![c[0].clone(), c[1].clone(), o.clone(), Sx::Z(1), Sx::Z(0), c[5].clone()];
-                    exec_once(&oc)?;
+                    exec_once_with(&oc, &mut shared_is)?;
                 }
                 perturb(j);
             }
-            results.push(exec_once(&base)?);
+            results.push(exec_once_with(&base, &mut shared_is)?);
         }
         // (c) t threads at once
         if t > 0 {
